@@ -32,7 +32,12 @@ pub fn case_strategy(max_ops: usize, max_peers: u8, bias_stale: bool) -> BoxedSt
                 Just(rooms),
                 proptest::collection::vec(op, 3..max_ops),
                 any::<u64>(),
-                prop_oneof![6 => Just(0u8), 1 => Just(1u8), 1 => Just(2u8)],
+                if bias_stale {
+                    // C11: a row deleted again after it came back at a newer version is of interest
+                    prop_oneof![3 => Just(0u8), 1 => Just(1u8), 4 => Just(2u8)].boxed()
+                } else {
+                    prop_oneof![6 => Just(0u8), 1 => Just(1u8), 1 => Just(2u8)].boxed()
+                },
             )
         })
         .prop_map(|(peers, rooms, ops, perm, mode)| SyncCase { peers, rooms, ops, perm, mode })
@@ -42,9 +47,9 @@ pub fn case_strategy(max_ops: usize, max_peers: u8, bias_stale: bool) -> BoxedSt
 /// schedules biased towards deletions and pulls (C11)
 fn stale_op_strategy(peers: u8, rooms: u8) -> impl Strategy<Value = Op> {
     let act = prop_oneof![
-        3 => (0u8..2, 0..rooms, 0u8..12, proptest::option::weighted(0.3, any::<u16>()))
+        3 => (0u8..2, 0..rooms, 0u8..14, proptest::option::weighted(0.3, any::<u16>()))
             .prop_map(|(entity, room, text, parent)| Action::Create { entity, room, text, parent }),
-        1 => (any::<u16>(), 0u8..12).prop_map(|(row, value)| Action::Update { row, value }),
+        1 => (any::<u16>(), 0u8..14).prop_map(|(row, value)| Action::Update { row, value }),
         2 => (any::<u16>(), any::<u16>()).prop_map(|(row, target)| Action::AddLink { row, target }),
         4 => any::<u16>().prop_map(|row| Action::DeleteNode { row }),
         2 => (any::<u16>(), any::<u16>()).prop_map(|(row, target)| Action::DeleteLink { row, target }),
@@ -263,6 +268,15 @@ pub fn run_sync_case(case: &SyncCase, ctx: &RunCtx, full_query: bool) -> SyncRes
             }
         }
         let content = w.content().await;
+        if std::env::var("DV_TRACE").is_ok() {
+            println!("== quiescence after {:?} rounds", rounds);
+            for (i, c) in content.iter().enumerate() {
+                let short = |x: &str| x.chars().skip(2).take(4).collect::<String>();
+                let nodes: Vec<String> = c.nodes.iter().map(|n| format!("{}v{}k{}", short(&n.id), n.mdate % 100000000, short(&n.key))).collect();
+                let nd: Vec<String> = c.node_dels.iter().map(|d| format!("{}v{}d{}k{}", short(&d.id), d.mdate % 100000000, d.deletion_date % 100000000, short(&d.key))).collect();
+                println!("   {}: N{:?} ND{:?} E{}", w.peers[i].name, nodes, nd, c.edges.len());
+            }
+        }
         // C11 at quiescence, and resurrection classification for C03
         let mut tomb_rooms: BTreeMap<String, BTreeSet<String>> = BTreeMap::new();
         for c in &content {
@@ -326,6 +340,17 @@ pub fn run_sync_case(case: &SyncCase, ctx: &RunCtx, full_query: bool) -> SyncRes
                         let mut ids = BTreeSet::new();
                         c.node_dels.iter().any(|d| !ids.insert(&d.id))
                     });
+                    // rows having two or more distinct deletion records somewhere (deleted by two peers,
+                    // or deleted again after a newer version came back)
+                    let multi_record_ids: BTreeSet<String> = {
+                        let mut recs: BTreeMap<String, BTreeSet<String>> = BTreeMap::new();
+                        for c in &content {
+                            for d in &c.node_dels {
+                                recs.entry(d.id.clone()).or_default().insert(d.sig.clone());
+                            }
+                        }
+                        recs.into_iter().filter(|(_, s)| s.len() > 1).map(|(k, _)| k).collect()
+                    };
                     let had_cut = case.ops.iter().any(|o| matches!(o, Op::SyncCut { .. }));
                     let mut causes: BTreeMap<String, String> = BTreeMap::new();
                     let blind_name = |room: &str, kind: &str| -> String {
@@ -359,6 +384,7 @@ pub fn run_sync_case(case: &SyncCase, ctx: &RunCtx, full_query: bool) -> SyncRes
                                 }
                             }
                             let cause = match tomb_rooms.get(&d.id) {
+                                Some(_) if multi_record_ids.contains(&d.id) => "two-deletion-records-one-row".to_string(),
                                 Some(rooms) if !rooms.contains(&room) => "moved-row-deleted-in-new-room".to_string(),
                                 Some(_) => blind_name(&room, "nodes-with-tombstone"),
                                 None => {
@@ -377,7 +403,7 @@ pub fn run_sync_case(case: &SyncCase, ctx: &RunCtx, full_query: bool) -> SyncRes
                         let sa: BTreeSet<_> = content[0].node_dels.iter().collect();
                         let sb: BTreeSet<_> = content[i].node_dels.iter().collect();
                         for d in sa.symmetric_difference(&sb) {
-                            let cause = if double {
+                            let cause = if double || multi_record_ids.contains(&d.id) {
                                 "two-deletion-records-one-row".to_string()
                             } else {
                                 blind_name(&d.room, "node-deletion-log")
@@ -432,12 +458,11 @@ pub fn run_sync_case(case: &SyncCase, ctx: &RunCtx, full_query: bool) -> SyncRes
                         causes.insert("unclassified".to_string(), String::new());
                     }
                     for (cause, detail) in causes {
-                        r.c03.push(v(
-                            &format!("diverged:{}", cause),
-                            format!("{} vs {}: {}", w.peers[0].name, w.peers[i].name, detail),
-                        ));
+                        let sig = format!("diverged:{}", cause);
+                        if !r.c03.iter().any(|x| x.signature == sig) {
+                            r.c03.push(v(&sig, format!("{} vs {}: {}", w.peers[0].name, w.peers[i].name, detail)));
+                        }
                     }
-                    break;
                 }
             }
             let converged = (1..n).all(|i| content[i] == content[0]);
